@@ -8,7 +8,7 @@ from vf import common, findings
 from vf.bounded import ir_domain, roundtrip as R
 from vf.props import deductive
 
-KEYS = ["doctrans.emit:class_", "doctrans.emit:argparse_function", "doctrans.emit:docstring", "doctrans.parse:function", "doctrans.emit:function", "doctrans.emitter_utils:get_internal_body", "doctrans.defaults_utils:set_default_doc", "vf.contracts.laws:sdd_twice"]
+KEYS = ["vf.contracts.laws:class_roundtrip", "doctrans.emit:class_", "doctrans.emit:argparse_function", "doctrans.emit:docstring", "doctrans.parse:function", "doctrans.emit:function", "doctrans.emitter_utils:get_internal_body", "doctrans.defaults_utils:set_default_doc", "vf.contracts.laws:sdd_twice"]
 OPS = ("doc", "cls", "fn", "ap")
 
 
